@@ -28,7 +28,8 @@ QUICK_RUNS = 4000
 THOROUGH_RUNS = 250_000
 EXPECT_PROBES = ["created_on_grid", "created_1us_before_grid", "created_1us_after_grid", "tick_late_ge_1_period",
                  "series_added_while_running", "slow_sink", "stall_exactly_one_period", "actor_resample_restarted",
-                 "moving_window_variant", "align_to_in_dst_zone"]
+                 "moving_window_variant", "align_to_in_dst_zone", "wall_clock_ticks_between_reads",
+                 "resample_restarted_by_driver", "series_added_during_tick", "series_removed_while_running"]
 
 UNIX_EPOCH = datetime.fromtimestamp(0.0, tz=timezone.utc)
 PERIODS_US = [200_000, 1_000_000, 1_500_000, 3_000_000, 7_300_000]
@@ -47,6 +48,7 @@ class Recorder:
         self.at_creation: set[str] = set()
         self.active_sinks = 0
         self.late = False
+        self.removed: dict[str, int] = {}
 
     def record(self, name: str, ts: datetime) -> None:
         t = _us(ts - self.sim.epoch)
@@ -60,8 +62,11 @@ class Recorder:
             self.sim.nontrivial = True
 
 
-def _check(sim: Sim, rec: Recorder, period_us: int, align_to: datetime | None, creation_us: int, variant: str,
+def _check(sim: Sim, rec: Recorder, period_us: int, align_to: datetime | None, creation: tuple[int, int], variant: str,
            calm_end_us: int) -> None:
+    # creation = (clock before the constructor call, clock after it): identical unless reading the wall clock
+    # costs time, in which case the resampler's own "now" lies somewhere in between
+    creation_us, creation_hi = creation
     sig = {"variant": variant}
     all_ticks = sorted({t for ts in rec.ticks.values() for t in ts})
     # global tick sequence must itself be gap-free
@@ -81,22 +86,27 @@ def _check(sim: Sim, rec: Recorder, period_us: int, align_to: datetime | None, c
                 if off:
                     sim.violation("aligned", sig, f"series {name}: timestamp epoch+{t} us is {off} us off the grid "
                                                   f"align_to + k*{period_us} us")
-        elif ts and (ts[0] - creation_us) % period_us:
+        elif ts and not any((ts[0] - c) % period_us == 0 for c in range(creation_us, creation_hi + 1)):
             sim.violation("aligned", dict(sig, align="none"),
                           f"series {name}: align_to=None, creation at {creation_us} us, first tick {ts[0]} us")
         if name in rec.at_creation and ts:
-            if not creation_us < ts[0] <= creation_us + 2 * period_us:
+            if not creation_us < ts[0] <= creation_hi + 2 * period_us:
                 sim.violation("first_tick_window", sig,
                               f"series {name} present at creation ({creation_us} us): first tick at {ts[0]} us, expected in "
                               f"({creation_us}, {creation_us + 2 * period_us}] (period {period_us})")
         if ts:
             i0 = all_ticks.index(ts[0])
-            if all_ticks[i0:i0 + len(ts)] != ts or (i0 + len(ts) != len(all_ticks)):
+            if name in rec.removed:
+                # a removed series holds a contiguous run of the global sequence (it stops at its removal)
+                if all_ticks[i0:i0 + len(ts)] != ts:
+                    sim.violation("shared_timeline", dict(sig, what="removed series"),
+                                  f"series {name}: its ticks {ts[:5]}.. are not a contiguous run of the global sequence")
+            elif all_ticks[i0:i0 + len(ts)] != ts or (i0 + len(ts) != len(all_ticks)):
                 sim.violation("shared_timeline", sig,
                               f"series {name}: its {len(ts)} ticks starting at {ts[0]} are not a contiguous suffix of the "
                               f"global tick sequence ({len(all_ticks)} ticks, last {all_ticks[-1]}, series last {ts[-1]})")
     for name in rec.at_creation:
-        if not rec.ticks.get(name):
+        if not rec.ticks.get(name) and name not in rec.removed:
             sim.violation("liveness", dict(sig, what="no tick at all"), f"series {name} never received a sample")
     # bounded liveness after the last injected delay: the timeline has caught up with the clock
     if all_ticks and calm_end_us - all_ticks[-1] >= 2 * period_us:
@@ -145,6 +155,11 @@ def scenario(sim: Sim) -> None:
     sim.set_cost_mode(cost, ch.draw("cost_seed", 1 << 16) if cost == 2 else 0)
     sim.config.update(variant=variant, period_us=period_us, align=str(align_to), pre_us=pre, nticks=nticks, cost=cost)
     sim.note(f"{variant} period={period_us}us align_to={align_to} create at +{pre}us")
+    if ch.chance("clock_ticks_between_reads", 0.2):
+        from frequenz.sdk.timeseries import _resampling as _rsm
+
+        sim.tick_wall_clock_on_read(_rsm, ch.choice("clock_tick_us", [1, 137, 2500]))
+        sim.probe("wall_clock_ticks_between_reads")
     rec = Recorder(sim, period_us)
     sim.loop.max_now_us = (pre + (nticks + 40) * period_us) * 3 + 600_000_000
 
@@ -182,13 +197,15 @@ def scenario(sim: Sim) -> None:
         creation_us = sim.now_us
         cfg = ResamplerConfig(resampling_period=period, align_to=align_to, max_data_age_in_periods=2.0)
         rs = Resampler(cfg)
+        creation = (creation_us, sim.now_us)
         run_us = nticks * period_us
         stalls_plan(run_us)
         sources: list[Any] = []
 
         def add_series(name: str) -> None:
             c: Broadcast[Any] = Broadcast(name=name)
-            sources.append((c, c.new_sender()))
+            rx_ = c.new_receiver()
+            sources.append((c, c.new_sender(), name, rx_))
             slow = ch.weighted("sink_profile", [3, 2, 1])
 
             async def sink(sample: Any, name: str = name, slow: int = slow) -> None:
@@ -207,20 +224,56 @@ def scenario(sim: Sim) -> None:
                 finally:
                     rec.active_sinks -= 1
 
-            rs.add_timeseries(name, c.new_receiver(), sink)
+            rs.add_timeseries(name, rx_, sink)
 
         n0 = ch.int_between("series_at_creation", 1, 3)
         for i in range(n0):
             add_series(f"s{i}")
             rec.at_creation.add(f"s{i}")
-        task = sim.spawn(rs.resample())
-        # series added while running: only while resample() waits on the timer (see DESIGN C07)
-        nadd = ch.weighted("n_added", [3, 2, 1])
+        # Either plain `resample()` (series are then added only while it waits on the timer), or a driver that calls
+        # resample() again whenever it ends with an error - what ComponentMetricsResamplingActor does and what the
+        # docstring prescribes - in which case series are added and removed at any time, also while a slow sink of
+        # the current tick is still suspended (resample() then ends with an IndexError on the unchanged tree, after
+        # having advanced its window end; the timeline must survive that).
+        driven = ch.chance("driver_restarts_resample", 0.4)
+        removed: set[str] = set()
+
+        async def driver() -> None:
+            while True:
+                try:
+                    await rs.resample()
+                except asyncio.CancelledError:
+                    raise
+                except Exception:  # pylint: disable=broad-except
+                    sim.probe("resample_restarted_by_driver")
+                    sim.ev("resample_restart", "")
+                    continue
+                return
+
+        task = sim.spawn(driver() if driven else rs.resample())
+        nadd = ch.weighted("n_added", [3, 2, 1]) + (1 if driven else 0)
         pending_adds = sorted(pre + ch.int_between("add_at", 0, run_us) for _ in range(nadd))
         added = [0]
+        if driven and len(sources) > 1 and ch.chance("remove_a_series", 0.4):
+            victim = ch.draw("remove_which", len(sources))
+
+            def do_remove() -> None:
+                c, _tx, name, rx = sources[victim]
+                if rs.remove_timeseries(rx):
+                    removed.add(name)
+                    rec.removed[name] = sim.now_us
+                    sim.probe("series_removed_while_running")
+                    if rec.active_sinks:
+                        sim.probe("series_removed_during_tick")
+                    sim.ev("remove", name)
+                    sim.note(f"remove series {name}")
+
+            sim.loop.at_abs(pre + ch.int_between("remove_at", 0, run_us), do_remove)
 
         def on_idle() -> None:
-            while pending_adds and pending_adds[0] <= sim.now_us and rec.active_sinks == 0:
+            while pending_adds and pending_adds[0] <= sim.now_us and (driven or rec.active_sinks == 0):
+                if rec.active_sinks:
+                    sim.probe("series_added_during_tick")
                 pending_adds.pop(0)
                 added[0] += 1
                 name = f"a{added[0]}"
@@ -231,14 +284,17 @@ def scenario(sim: Sim) -> None:
                 add_series(name)
 
         sim.loop.idle_hooks.append(on_idle)
+        if driven:
+            for t_add in list(pending_adds):
+                sim.loop.at_abs(t_add, on_idle)     # also in the middle of a tick, not only at idle points
 
         async def feeder() -> None:
             n = 0
             while True:
                 await asyncio.sleep(period_us / 1e6 * 0.7)
-                for _, tx in list(sources):
+                for src in list(sources):
                     n += 1
-                    await tx.send(Sample(sim.wall(), Quantity(float(n))))
+                    await src[1].send(Sample(sim.wall(), Quantity(float(n))))
 
         ft = sim.spawn(feeder())
         await _until(sim, pre + run_us)
@@ -254,7 +310,7 @@ def scenario(sim: Sim) -> None:
         task.cancel()
         ft.cancel()
         await rs.stop()
-        _check(sim, rec, period_us, align_to, creation_us, variant, calm_end)
+        _check(sim, rec, period_us, align_to, creation, variant, calm_end)
 
     async def main_actor() -> None:
         from frequenz.channels import Broadcast
@@ -276,6 +332,7 @@ def scenario(sim: Sim) -> None:
         cfg = ResamplerConfig(resampling_period=period, align_to=align_to, max_data_age_in_periods=2.0)
         actor = ComponentMetricsResamplingActor(channel_registry=reg, data_sourcing_request_sender=ds_ch.new_sender(),
                                                 resampling_request_receiver=rs_ch.new_receiver(limit=500), config=cfg)
+        creation = (creation_us, sim.now_us)
         restarts = [0]
         orig_log = actor._log_resampling_task_error
 
@@ -353,7 +410,7 @@ def scenario(sim: Sim) -> None:
         for r in readers:
             r.cancel()
         await actor.stop()
-        _check(sim, rec, period_us, align_to, creation_us, variant, calm_end)
+        _check(sim, rec, period_us, align_to, creation, variant, calm_end)
 
     async def main_mw() -> None:
         """MovingWindow with a resampler config: the window's internal Resampler must put one sample per tick
@@ -373,6 +430,7 @@ def scenario(sim: Sim) -> None:
         mw = MovingWindow(size=period * 100, resampled_data_recv=chan.new_receiver(limit=5000),
                           input_sampling_period=period / 4, resampler_config=cfg,
                           align_to=align_to if align_to is not None else sim.epoch)
+        creation = (creation_us, sim.now_us)
         # tap the sink the window registers with its internal Resampler (every tick, also None-valued ones which
         # the window does not write into its buffer)
         assert mw._resampler is not None
@@ -409,7 +467,7 @@ def scenario(sim: Sim) -> None:
             sim.violation("liveness", {"variant": variant, "what": "moving window stopped"}, "MovingWindow not running")
         ft.cancel()
         await mw.stop()
-        _check(sim, rec, period_us, align_to, creation_us, variant, calm_end)
+        _check(sim, rec, period_us, align_to, creation, variant, calm_end)
         if not rec.ticks.get("mw"):
             sim.violation("liveness", {"variant": variant, "what": "no tick at all"}, "MovingWindow buffer never updated")
 
